@@ -4,3 +4,4 @@ import XV.Props.C19
 import XV.Props.C20
 import XV.Props.C18
 import XV.Props.C13
+import XV.Props.C02
